@@ -128,7 +128,7 @@ def check(case, ctx):
             ctx.nontrivial(len(rows) >= 2 and len(vidx) >= 2)
             molten = _T(etl.melt(T, **kw))
             exp_m = [tuple(key) + ("variable", "value")] + [tuple(r[i] for i in kidx) + (hdr[v], r[v]) for r in rows for v in vidx]
-            if molten != exp_m:
+            if not codec.strict_eq(molten, exp_m):
                 return fail("melt", molten, exp_m)
             if len(molten) - 1 != len(rows) * len(vidx):
                 return fail("melt-count", len(molten) - 1, len(rows) * len(vidx))
@@ -137,21 +137,21 @@ def check(case, ctx):
                 vsorted = sorted(vidx, key=lambda i: hdr[i])
                 srt = sorted(rows, key=lambda r: ref_key(R.keyof(r, kidx)))
                 exp_b = [tuple(key) + tuple(hdr[i] for i in vsorted)] + [tuple(r[i] for i in kidx) + tuple(r[i] for i in vsorted) for r in srt]
-                if back != exp_b:
+                if not codec.strict_eq(back, exp_b):
                     return fail("recast", back, exp_b)
         elif op == "transpose":
             tt = _T(etl.transpose(etl.transpose(T)))
             exp = [tuple(hdr)] + rows
-            if tt != exp:
+            if not codec.strict_eq(tt, exp):
                 return fail("involution", tt, exp)
             once = _T(etl.transpose(T))
             exp1 = [tuple([hdr[i]] + [r[i] for r in rows]) for i in range(nf)]
-            if once != exp1:
+            if not codec.strict_eq(once, exp1):
                 return fail("transpose", once, exp1)
         elif op == "flatten":
             flat = list(etl.flatten(T))
             expf = [c for r in rows for c in r]
-            if flat != expf:
+            if not codec.strict_eq(flat, expf):
                 return fail("flatten", flat, expf)
             n = max(1, nf + case["period_delta"])
             un = _T(etl.unflatten(flat, n, missing=case["missing"]))
@@ -159,14 +159,14 @@ def check(case, ctx):
             if chunks and len(chunks[-1]) < n:
                 chunks[-1] = chunks[-1] + (case["missing"],) * (n - len(chunks[-1]))
             exp = [tuple("f%d" % i for i in range(n))] + chunks
-            if un != exp:
+            if not codec.strict_eq(un, exp):
                 return fail("unflatten", un, exp)
-            if n == nf and un[1:] != rows:
+            if n == nf and not codec.strict_eq(un[1:], rows):
                 return fail("roundtrip", un[1:], rows)
             # unflatten from a table field
             col = [["v"]] + [[c] for c in expf]
             un2 = _T(etl.unflatten(col, "v", n, missing=case["missing"]))
-            if un2 != exp:
+            if not codec.strict_eq(un2, exp):
                 return fail("unflatten-field", un2, exp)
         elif op == "pivot":
             agg = {"sum": sum, "list": list, "len": len}[case["agg"]]
@@ -188,7 +188,7 @@ def check(case, ctx):
                         row.append(case["missing"])
                 exp.append(tuple(row))
             ctx.nontrivial(sparse and len(groups) >= 2)
-            if got != exp:
+            if not codec.strict_eq(got, exp):
                 return fail("rows", got, exp)
         elif op == "unpack":
             f, inc, missing = case["field"], case["include_original"], case["missing"]
@@ -204,7 +204,7 @@ def check(case, ctx):
                 v = r[fi]
                 new = list(v[:n]) + [missing] * (n - len(v)) if n else []
                 exp.append(tuple(r[i] for i in base) + tuple(new))
-            if got != exp:
+            if not codec.strict_eq(got, exp):
                 return fail("rows", got, exp)
         elif op == "unpackdict":
             f, inc, missing = case["field"], case["include_original"], case["missing"]
@@ -224,7 +224,7 @@ def check(case, ctx):
             for r in rows:
                 d = r[fi]
                 exp.append(tuple(r[i] for i in base) + tuple(d[k] if isinstance(d, dict) and k in d else missing for k in keys))
-            if got != exp:
+            if not codec.strict_eq(got, exp):
                 return fail("rows", got, exp)
         elif op in ("capture", "split"):
             f, inc = case["field"], case["include_original"]
@@ -242,7 +242,7 @@ def check(case, ctx):
                 got = _T(etl.split(T, f, case["pattern"], nfl, include_original=inc, maxsplit=case["maxsplit"]))
                 for r in rows:
                     exp.append(tuple(r[i] for i in base) + tuple(prog.split(r[fi], case["maxsplit"])))
-            if got != exp:
+            if not codec.strict_eq(got, exp):
                 return fail("rows", got, exp)
         elif op == "splitdown":
             f = case["field"]
@@ -253,13 +253,13 @@ def check(case, ctx):
             for r in rows:
                 for v in prog.split(r[fi], case["maxsplit"]):
                     exp.append(tuple(v if i == fi else r[i] for i in range(nf)))
-            if got != exp:
+            if not codec.strict_eq(got, exp):
                 return fail("rows", got, exp)
         elif op == "dicts":
             ds = list(etl.dicts(T))
             back = _T(etl.fromdicts(ds))
             exp = [tuple(hdr)] + rows
-            if back != exp:
+            if not codec.strict_eq(back, exp):
                 return fail("fromdicts(dicts)", back, exp)
             back2 = _T(etl.fromdicts(iter(list(ds)), header=hdr))
             if back2 != exp or _T(etl.fromdicts(list(ds), header=hdr)) != exp:
@@ -268,7 +268,7 @@ def check(case, ctx):
             cols = etl.columns(T)
             back = _T(etl.fromcolumns(list(cols.values()), header=list(cols.keys())))
             exp = [tuple(hdr)] + rows
-            if back != exp:
+            if not codec.strict_eq(back, exp):
                 return fail("fromcolumns(columns)", back, exp)
     except Exception as ex:
         return exc_fail(op, ex)
